@@ -46,8 +46,42 @@ def analyse(lang, text, keep_tokens=False):
     return (ms, tokens) if keep_tokens else ms
 
 
+def analyse_file(lang, data):
+    """the same through a real file (bytes on disk -> scan_path), which adds the reading and decoding step"""
+    import tempfile, shutil
+    from pathlib import Path
+    from codelimit.common.Scanner import scan_path
+    from codelimit.common.Configuration import Configuration
+    d = tempfile.mkdtemp(prefix="verif_c01_")
+    try:
+        (Path(d) / EXT[lang]).write_bytes(data)
+        Configuration.exclude = []
+        signal.signal(signal.SIGALRM, _alarm)
+        signal.alarm(20)
+        try:
+            cb = scan_path(Path(d))
+        finally:
+            signal.alarm(0)
+        e = cb.files.get(EXT[lang])
+        return None if e is None else list(e.measurements())
+    finally:
+        shutil.rmtree(d, ignore_errors=True)
+
+
 def mtuple(m):
     return {"name": m.unit_name, "start": (m.start.line, m.start.column), "end": (m.end.line, m.end.column), "length": m.value}
+
+
+MULTILINE_TOKEN_TEXTS = {
+    "Java": ['class A {\n  String f() {\n    String s = """\n      a\n      """;\n    return s;\n  }\n}\n',
+             'class A {\n  int g() {\n    /* a\n       b */ int x = 1;\n    return x;\n  }\n}\n'],
+    "C": ["#define DECL(n) \\\n  int n(void) { \\\n    return 0; \\\n  }\n\nint g(void) {\n#define X \\\n   1\n  return X;\n}\n",
+          'int f(void) {\n  char *s = "a\\\nb";\n  return 0;\n}\n'],
+    "C++": ["#define DECL(n) \\\n  int n(void) { \\\n    return 0; \\\n  }\n\nint g(void) {\n#define X \\\n   1\n  return X;\n}\n"],
+    "indent": ["def f():\n    x = 1 + \\\n2\n    return x\n", 'def g():\n    s = """a\n  b\n"""\n    return s\n',
+               "def h():\n    x = (1 +\n2)\n    return x\n"],
+    "brace": ["function f() {\n  const s = `a\n  b`;\n  return s;\n}\n", "function g() {\n  /* a\n  b */ x = 1;\n  return x;\n}\n"],
+}
 
 
 # ------------------------------------------------------------------------------------------- C01
@@ -475,6 +509,32 @@ def work(job):
                 res["distinct"].add(hash(w.text()))
                 for kind, what, *role in check_c01(lang, w.text(), w.expected, w.tags):
                     fail(kind, what, w.text(), {"expected": w.expected}, set(w.tags) | set(role))
+                # the file on disk, with LF and with CRLF line ends: the same measurements as the text itself
+                try:
+                    direct = [mtuple(m) for m in analyse(lang, w.text())]
+                    for ends, data in (("LF", w.text().encode()), ("CRLF", w.text().replace("\n", "\r\n").encode())):
+                        res["evaluations"] += 1
+                        ms = analyse_file(lang, data)
+                        got = None if ms is None else [mtuple(m) for m in ms]
+                        if got != direct:
+                            fail("file-on-disk", f"{ends} file: {got} but the text itself gives {direct}", w.text(), {"line_ends": ends}, set(w.tags))
+                except Exception as e:  # noqa
+                    if not isinstance(e, Timeout):
+                        fail("file-on-disk", f"{type(e).__name__}: {e}", w.text(), None, set(w.tags))
+            # texts with tokens that span physical lines (text blocks, macro continuations, backslash continuations): the
+            # file with CRLF line ends gives what the file with LF line ends gives, which is what the text itself gives
+            for t in MULTILINE_TOKEN_TEXTS.get(canon.LANGS[lang][1] if lang not in ("Java", "C", "C++") else lang, []):
+                try:
+                    direct = [mtuple(m) for m in analyse(lang, t)]
+                    for ends, data in (("LF", t.encode()), ("CRLF", t.replace("\n", "\r\n").encode())):
+                        res["evaluations"] += 1
+                        ms = analyse_file(lang, data)
+                        got = None if ms is None else [mtuple(m) for m in ms]
+                        if got != direct:
+                            fail("file-on-disk", f"{ends} file: {got} but the text itself gives {direct}", t, {"line_ends": ends}, {"multi-line-token"})
+                except Exception as e:  # noqa
+                    if not isinstance(e, Timeout):
+                        fail("file-on-disk", f"{type(e).__name__}: {e}", t, None, {"multi-line-token"})
             res["samples"] = [{"language": lang, "text": progs[1].text()[:300], "expected": progs[1].expected}]
         elif prop in ("C05", "C03"):
             cases = [("canonical", w.text(), w.tags) for w in progs]
@@ -541,7 +601,15 @@ def replay(path):
     rp = json.load(open(path))
     prop, lang, kind = rp["obligation"].split(":", 2)
     text = rp["text"]
-    if prop == "C01":
+    if prop == "C01" and kind == "file-on-disk":
+        direct = [mtuple(m) for m in analyse(lang, text)]
+        fs = []
+        for ends, data in (("LF", text.encode()), ("CRLF", text.replace("\n", "\r\n").encode())):
+            ms = analyse_file(lang, data)
+            got = None if ms is None else [mtuple(m) for m in ms]
+            if got != direct:
+                fs.append(("file-on-disk", f"{ends} file: {got} but the text itself gives {direct}"))
+    elif prop == "C01":
         fs = check_c01(lang, text, rp["extra"]["expected"], rp.get("tags", []))
     elif prop in ("C05", "C03"):
         fs = check_c05(lang, text)
